@@ -10,7 +10,8 @@ from common.framework import Failure, ImplError, Stream
 ID = 'C17'
 LEAN_MODULES = ['Proofs.C17']
 REQUIRED = ['C17.kdt_len_eq', 'C17.kdt_x_distinct_inrange', 'C17.kdt_y_inrange', 'C17.kdt_knn_member',
-            'C17.kdt_y_injective']
+            'C17.kdt_y_injective', 'C17.kdt_pairs_one_to_one', 'C17.kdt_row_marked_at_most_once', 'C17.kdt_matched_iff',
+            'C17.kdt_sortedpos_not_injective']
 TRUSTED = ['scipy.spatial.cKDTree(y).query(x, k=K, distance_upper_bound=b) is an oracle: its result (D, inds) is obtained from the '
            'real library on the same inputs and handed to the model exactly (distances as exact rationals, inf as a sentinel)',
            'that the entries of a query row are the K nearest points of y is scipy\'s contract; the instance check recomputes it by brute force']
